@@ -6,9 +6,11 @@ import (
 	"fmt"
 	"io"
 	"net"
+	"os"
 	"sort"
 	"strings"
 	"sync"
+	"sync/atomic"
 	"testing"
 	"time"
 
@@ -266,9 +268,17 @@ func runPeerScript(sc peerScript) *Fail {
 	}
 	rpc.VerifSetTimeouts(rd, wr, sy, un, pi)
 
-	ln, err := net.Listen("tcp", "127.0.0.1:0")
-	if err != nil {
-		panic(err)
+	// a loopback address of this process's own (many checks at once can exhaust the
+	// ephemeral ports of 127.0.0.1), and patience when the machine is that busy
+	var ln net.Listener
+	var err error
+	for t0 := time.Now(); ; time.Sleep(50 * time.Millisecond) {
+		if ln, err = net.Listen("tcp", fmt.Sprintf("127.%d.%d.%d:0", 80+shardNo()%64, (os.Getpid()*37)%250+1, 1+int(c15Seq.Add(1))%250)); err == nil {
+			break
+		}
+		if time.Since(t0) > 10*time.Second {
+			panic(err)
+		}
 	}
 	defer ln.Close()
 	type accepted struct {
@@ -565,6 +575,8 @@ func runPeerScript(sc peerScript) *Fail {
 	}
 	return nil
 }
+
+var c15Seq atomic.Int64
 
 func genPeerScript(t *rapid.T, withFailure bool) peerScript {
 	n := rapid.IntRange(1, 64).Draw(t, "ncalls")
